@@ -13,22 +13,24 @@ class FftLike (R : Type) where
 variable {K R : Type}
 
 section shape
-variable [Mul R] [Div R] [RealLike R] [FftLike R]
+variable [Add R] [Sub R] [Mul R] [Div R] [RealLike R] [FftLike R]
 
-/-- `_fft_shape`: `fft_shape = round(1/alpha)` per axis; note the call `_dft_alpha(dx, du, z, wavelength, oversample)` -/
+/-- `_fft_shape`: `fft_shape = round(1/alpha)` per axis; `alpha` as written at the call site (generated `Gen.fftAlphaCall`:
+`_dft_alpha(dx, du, z, wavelength, oversample)`, i.e. `z` and `wavelength` in each other's slot — harmless, they are multiplied) -/
 def fftShape (dx0 dx1 du0 du1 z wl : R) (os : Int) : Int × Int :=
-  let α := dftAlpha dx0 dx1 du0 du1 z wl os
+  let α := Gen.fftAlphaCall dx0 dx1 du0 du1 z wl (RealLike.ofInt os)
   (FftLike.roundEven (RealLike.ofInt 1 / α.1), FftLike.roundEven (RealLike.ofInt 1 / α.2))
 
 /-- `_fft_shape`: `prop_wavelength = min((fft_shape/oversample * dx * du)/z)` -/
 def propWavelength (S0 S1 : Int) (dx0 dx1 du0 du1 z : R) (os : Int) : R :=
-  FftLike.min ((RealLike.ofInt S0 / RealLike.ofInt os * dx0 * du0) / z) ((RealLike.ofInt S1 / RealLike.ofInt os * dx1 * du1) / z)
+  let w := Gen.fftWavelengths (RealLike.ofInt S0) (RealLike.ofInt S1) dx0 dx1 du0 du1 z (RealLike.ofInt os)
+  FftLike.min w.1 w.2
 end shape
 
 /-- `np.fft.ifftshift(x)[i] = x[(i + n//2) mod n]` -/
-def ifftshiftIdx (n i : Int) : Int := (i + n / 2) % n
+def npIfftshiftIdx (n i : Int) : Int := (i + n / 2) % n
 /-- `np.fft.fftshift(x)[i] = x[(i - n//2) mod n]` -/
-def fftshiftIdx (n i : Int) : Int := (i - n / 2) % n
+def npFftshiftIdx (n i : Int) : Int := (i - n / 2) % n
 
 section fft
 variable [Add R] [Sub R] [Mul R] [Neg R] [Div R] [RealLike R] [Add K] [Mul K] [Zero K] [CxLike K R]
@@ -45,9 +47,9 @@ def fft2Ortho (x : Arr K) : Arr K :=
 
 /-- `lentil.propagate._fft2(x) = fftshift(fft2(ifftshift(x), norm='ortho'))` -/
 def fft2c (x : Arr K) : Arr K :=
-  let xs : Arr K := { x with get := fun i j => x.get (ifftshiftIdx x.s0 i) (ifftshiftIdx x.s1 j) }
+  let xs : Arr K := { x with get := fun i j => x.get (npIfftshiftIdx x.s0 i) (npIfftshiftIdx x.s1 j) }
   let F := fft2Ortho (R := R) xs
-  { F with get := fun i j => F.get (fftshiftIdx x.s0 i) (fftshiftIdx x.s1 j) }
+  { F with get := fun i j => F.get (npFftshiftIdx x.s0 i) (npFftshiftIdx x.s1 j) }
 end fft
 
 /-- `lentil.util.pad(array, shape)` for a 2-D array (zero-pad or centre-crop per axis, origins `floor(n/2)` aligned) -/
